@@ -62,18 +62,25 @@ def TYPE_OF(e):
 
 
 ELEM = Union(Ref('Uint8'), Ref('Sint64'), Ref('Real32'), Ref('CIMDateTime'), Ref('Char16'), Str, Bool, Ref('CIMInstanceName'),
-             Ref('CIMInstance'), Int, Float)
+             Ref('CIMInstance'))
 cimtype_scalar = Contract(
     T + 'cimtype', returns=Str,
-    ensures=[('type-name', f'isinstance(obj, {HAS_TYPE}) and result == {TYPE_OF("obj")}')],
-    raises={'TypeError': Raises(post=[('only-without-a-CIM-type', f'not isinstance(obj, {HAS_TYPE})')])},
-    notes='cimtype() of a scalar, as proved by the scalar contracts above')
+    requires=[('element-has-a-CIM-type', f'isinstance(obj, {HAS_TYPE})')],
+    ensures=[('type-name', f'result == {TYPE_OF("obj")}')], raises={},
+    notes='cimtype() of a scalar that has a CIM type, as proved by the scalar contracts above')
+cimtype_untyped = Contract(
+    T + 'cimtype', never_returns=True,
+    requires=[('element-has-no-CIM-type', f'not isinstance(obj, {HAS_TYPE})')],
+    raises={'TypeError': Raises()}, notes='cimtype() of a Python number / None, as proved by the scalar contracts above')
 CONTRACTS.append(Contract(
     T + 'cimtype', label='array', params={'obj': ListOf(ELEM)}, callees={'cimtype': cimtype_scalar},
     ensures=[('type-of-the-first-element', f"len(old(obj)) > 0 and result == {TYPE_OF('old(obj)[0]')}")],
+    raises={'ValueError': Raises(post=[('only-empty-array', 'len(old(obj)) == 0')])}))
+CONTRACTS.append(Contract(
+    T + 'cimtype', label='array of python numbers', params={'obj': ListOf(Union(Int, Float))}, callees={'cimtype': cimtype_untyped},
+    ensures=[('never-returns', 'False')],
     raises={'ValueError': Raises(post=[('only-empty-array', 'len(old(obj)) == 0')]),
-            'TypeError': Raises(post=[('only-first-element-without-a-CIM-type',
-                                       f'len(old(obj)) > 0 and not isinstance(old(obj)[0], {HAS_TYPE})')])}))
+            'TypeError': Raises(post=[('only-non-empty-array', 'len(old(obj)) > 0')])}))
 
 TYPE_CLASS = {'boolean': 'bool', 'string': 'str', 'char16': 'str', 'datetime': 'CIMDateTime', 'reference': 'CIMInstanceName',
               'uint8': 'Uint8', 'uint16': 'Uint16', 'uint32': 'Uint32', 'uint64': 'Uint64',
@@ -117,7 +124,7 @@ CONTRACTS.append(Contract(
     ensures=[('None-stays-None', 'result is None')], raises={}))
 CONTRACTS.append(Contract(
     O + 'cimvalue', label="type 'boolean'",
-    params={'value': Union(Bool, Int, Str, TupleOf(), TupleOf(Int), Ref('Uint8')), 'type': Lit('boolean')},
+    params={'value': Union(Bool, Int, Str, TupleOf(), TupleOf(Int)), 'type': Lit('boolean')},
     ensures=[('result-is-of-the-named-CIM-type', 'isinstance(result, bool)'),
              # "converted to bool using the standard Python truth testing procedure"
              ('a-bool-is-kept', 'implies(isinstance(value, bool), result == value)'),
@@ -352,7 +359,7 @@ TO_INT = dict(value_str=Str, min_value=Int, field_name=Str, dtarg=Str)
 for _w in (2, 4, 8):
     CONTRACTS.append(Contract(
         T + 'CIMDateTime._to_int', label=f'whole field of {_w} characters (rep_digit None)',
-        params=dict(TO_INT, rep_digit=Lit(None)),
+        params=dict(TO_INT, rep_digit=Lit(None)), prefer='cvc5',
         requires=[f"inre(value_str, '[0-9*]{{{_w}}}')"],
         ensures=[('digits-give-their-value', "implies('*' not in value_str, result == str2int(value_str, 10))"),
                  ('all-asterisks-give-the-minimum', "implies('*' in value_str, result == min_value and inre(value_str, '[*]+'))")],
@@ -361,11 +368,194 @@ for _w in (2, 4, 8):
 for _k in range(0, 7):
     CONTRACTS.append(Contract(
         T + 'CIMDateTime._to_int', label=f"microseconds with {_k} significant digits (rep_digit '0')",
-        params=dict(TO_INT, rep_digit=Lit('0')), ghosts={'g_digits': Str},
-        requires=[f"inre(g_digits, '[0-9]{{{_k}}}')", f"value_str == g_digits + {'*' * (6 - _k)!r}"],
+        params=dict(TO_INT, rep_digit=Lit('0'), **({'value_str': Lit('******')} if _k == 0 else {})),
+        ghosts={} if _k == 0 else {'g_digits': Str}, prefer='cvc5',
+        requires=[] if _k == 0 else [f"inre(g_digits, '[0-9]{{{_k}}}')", f"value_str == g_digits + {'*' * (6 - _k)!r}",
+                                     "inre(value_str, '[0-9*]*')"],       # (redundant: helps the solver, see lemma_helpers)
         ensures=[('accepted', 'True')] + ([('digits-give-their-value', "result == str2int(old(value_str), 10)")] if _k == 6 else []),
         raises={}))
 CONTRACTS.append(Contract(
     T + 'CIMDateTime._to_int', label='any text',
     params=dict(TO_INT, rep_digit=Union(NoneT, Lit('0'))),
     ensures=[('total', 'True')], raises={'ValueError': Raises()}))
+
+# ---- CIMDateTime.__init__(str).  datetime.datetime / datetime.timedelta are external: trusted stubs; MinutesFromUTC is inlined;
+# _to_int is cut at the contract proved above (7 calls: inlining them does not terminate within 20 minutes).
+datetime_stub = Contract('external::datetime.datetime',
+                         sig=['year', 'month', 'day', 'hour=0', 'minute=0', 'second=0', 'microsecond=0', 'tzinfo=None'],
+                         returns=Ref('datetime.datetime'), raises={'ValueError': Raises()}, trusted=True,
+                         notes='datetime.datetime(ints..., tzinfo): a datetime object or ValueError (field out of range)')
+datetime_accepts = Contract('external::datetime.datetime', sig=datetime_stub.sig, returns=Ref('datetime.datetime'), raises={}, trusted=True,
+                            notes='CASE datetime() accepts the field values (the other case is covered by the contract with '
+                                  'the raising stub): a hypothesis of the contracts labelled "fields accepted by datetime()"')
+timedelta_stub = Contract('external::datetime.timedelta',
+                          sig=['days=0', 'seconds=0', 'microseconds=0', 'milliseconds=0', 'minutes=0', 'hours=0', 'weeks=0'],
+                          returns=Ref('datetime.timedelta'), raises={}, trusted=True,
+                          notes='datetime.timedelta(days<10**8, hours<100, minutes<100, seconds<100, microseconds<10**6) does not raise '
+                                '(OverflowError needs |days| > 999999999)')
+_TO_INT_POST = ('only-misplaced-asterisks',
+                "implies(rep_digit is None and inre(value_str, '[0-9*]{2}|[0-9*]{4}|[0-9*]{8}'), not inre(value_str, '[0-9]+|[*]+')) and "
+                "implies(rep_digit == '0' and inre(value_str, '[0-9*]{6}'), not inre(value_str, '[0-9]*[*]*'))")
+_TO_INT_ENS = [('whole-field-granularity',
+                "implies(rep_digit is None and inre(value_str, '[0-9*]{2}|[0-9*]{4}|[0-9*]{8}'), inre(value_str, '[0-9]+|[*]+'))")]
+_TO_INT_NOTES = ('_to_int as proved above: only ValueError for any text; for the field widths 2, 4, 8 (whole-field asterisks) and 6 '
+                 '(digit granularity) a ValueError only when the asterisks are misplaced, a result only when they are not')
+to_int_c = Contract(T + 'CIMDateTime._to_int', returns=Int, ensures=_TO_INT_ENS, raises={'ValueError': Raises(post=[_TO_INT_POST])},
+                    notes=_TO_INT_NOTES)
+# the same with a consequence of the first clause spelled out (a field without asterisk never fails): it lets the solvers
+# close the full-precision shapes at once, but it slows the asterisk shapes down, hence two variants of one contract
+to_int_c_full = Contract(
+    T + 'CIMDateTime._to_int', returns=Int, ensures=_TO_INT_ENS,
+    raises={'ValueError': Raises(post=[_TO_INT_POST, ('only-with-an-asterisk',
+                                                      "implies(inre(value_str, '[0-9*]{2}|[0-9*]{4}|[0-9*]{6}|[0-9*]{8}'), '*' in value_str)")])},
+    notes=_TO_INT_NOTES)
+
+
+def _init(label, dtarg_sort=Str, accepts=False, full=False, **kw):
+    return Contract(T + 'CIMDateTime.__init__', label=label, params={'self': Obj('CIMDateTime'), 'dtarg': dtarg_sort},
+                    callees={'datetime.datetime': datetime_accepts if accepts else datetime_stub, 'datetime.timedelta': timedelta_stub,
+                             '_to_int': to_int_c_full if full else to_int_c}, **kw)
+
+
+IS_IV = ('is-an-interval', 'self.__timedelta is not None and self.__datetime is None')
+IS_TS = ('is-a-point-in-time', 'self.__datetime is not None and self.__timedelta is None')
+
+
+def shape_requires(kind, ndigits, rest, sign='+'):
+    """dtarg == <ndigits digits (with the '.' after the 14th)> + rest + <':000' | sign utc>, given structurally through ghosts
+    (a flat regex precondition leaves both solvers without an answer: word equations of the match decomposition)"""
+    ghosts, req, parts = {}, [], []
+    if ndigits > 14:
+        ghosts.update(g_body=Str, g_frac=Str)
+        req += ["inre(g_body, '[0-9]{14}')", f"inre(g_frac, '[0-9]{{{ndigits - 14}}}')"]
+        parts += ['g_body', "'.'", 'g_frac']
+    elif ndigits > 0:
+        ghosts.update(g_body=Str)
+        req += [f"inre(g_body, '[0-9]{{{ndigits}}}')"]
+        parts += ['g_body']
+    if kind == 'iv':
+        parts.append(repr(rest + ':000'))
+    else:
+        ghosts.update(g_utc=Str)
+        req += ["inre(g_utc, '[0-9]{3}')"]
+        parts += [repr(rest + sign), 'g_utc']
+    req.append('dtarg == ' + ' + '.join(parts))
+    return ghosts, req
+
+
+# Intervals: every legal precision; nothing may raise (every DSP0004 interval string is accepted).
+# Timestamps: the CASE "datetime() accepts the field values": accepted, kind, precision, every ValueError site unreachable
+#   (the case "datetime() refuses" is the same code for every shape: covered by the full-precision contract and by index 0,
+#    where year 0 is always refused by Python's datetime).  A timestamp shape costs about 90 s (23 paths: the sign branch is
+#    not pruned), so only TS_SAMPLE is loaded by default; the other legal precisions are in PROVED_BUT_SLOW (all 146
+#    obligations of the 14 timestamp shapes were proved in one 5-minute run; `C06_DT_ALL_SHAPES=1 ./check C06` loads them).
+TS_SAMPLE = {(0, '+'), (4, '+'), (8, '+'), (12, '+'), (15, '-'), (18, '+')}
+PROVED_BUT_SLOW = []
+for _kind, _widths in (('iv', IV_WIDTHS), ('ts', TS_WIDTHS)):
+    _what = 'interval' if _kind == 'iv' else 'timestamp'
+    for _p in legal_precisions(_widths):
+        _nd, _rest = body_shape(_p)
+        if _p >= 15:
+            _nd, _rest = 14 + (_p - 15), ('.' if _p == 15 else '') + _rest
+        _post = [IS_IV if _kind == 'iv' else IS_TS, ('precision-is-the-index-of-the-first-asterisk', f'self.__precision == {_p}')]
+        for _sign in ('+', '-') if (_kind, _p) == ('ts', 15) else ('+',):
+            _gh, _rq = shape_requires(_kind, _nd, _rest, _sign)
+            _to = CONTRACTS if _kind == 'iv' or (_p, _sign) in TS_SAMPLE else PROVED_BUT_SLOW
+            if (_kind, _p) == ('iv', 0):
+                _to.append(_init(f'{_what}, asterisks from index 0', Lit('*' * 14 + '.' + '*' * 6 + ':000'), ensures=_post, raises={}))
+            elif _kind == 'iv':
+                _to.append(_init(f'{_what}, asterisks from index {_p}', ghosts=_gh, requires=_rq, ensures=_post, prefer='cvc5', raises={}))
+            elif _p == 0:
+                _to.append(_init(f'{_what}, asterisks from index 0', ghosts=_gh, requires=_rq, ensures=_post, prefer='cvc5',
+                                 raises={'ValueError': Raises()}))
+            else:
+                _to.append(_init(f"{_what} with sign '{_sign}', asterisks from index {_p}, fields accepted by datetime()", accepts=True,
+                                 ghosts=_gh, requires=_rq, ensures=_post, prefer='cvc5', raises={}))
+if _os.environ.get('C06_DT_ALL_SHAPES'):
+    CONTRACTS.extend(PROVED_BUT_SLOW)
+
+# full precision (no asterisk): the flat regex precondition is enough here, both signs
+CONTRACTS.append(_init('interval, full precision', full=True,
+                       requires=[r"inre(dtarg, '[0-9]{14}\\.[0-9]{6}:000')", "'*' not in dtarg"],        # (the 2nd is redundant: lemma_helpers)
+                       ensures=[IS_IV, ('full-precision', 'self.__precision is None')], raises={}))
+CONTRACTS.append(_init('timestamp, full precision', full=True,
+                       requires=[r"inre(dtarg, '[0-9]{14}\\.[0-9]{6}[+-][0-9]{3}')", "'*' not in dtarg"],
+                       ensures=[IS_TS, ('full-precision', 'self.__precision is None')], raises={'ValueError': Raises()}))
+CONTRACTS.append(_init('timestamp, full precision, fields accepted by datetime()', accepts=True, prefer='cvc5', full=True,
+                       requires=[r"inre(dtarg, '[0-9]{14}\\.[0-9]{6}[+-][0-9]{3}')", "'*' not in dtarg"],
+                       ensures=[IS_TS, ('full-precision', 'self.__precision is None')], raises={}))
+
+
+# Illegal asterisk placements (samples of the two ways to violate the DSP0004 rule; the bounded stand-in enumerates all masks):
+# never accepted, ValueError.
+def _illegal(label, parts, ghosts, req):
+    return _init('illegal: ' + label, ghosts=ghosts, requires=req + ['dtarg == ' + ' + '.join(parts)], prefer='cvc5',
+                 ensures=[('never-accepted', 'False')], raises={'ValueError': Raises()})
+
+
+D = lambda g, n: f"inre({g}, '[0-9]{{{n}}}')"     # noqa: E731
+CONTRACTS.append(_illegal('interval, asterisks start inside the seconds field (index 13)',
+                          ['g_a', repr('*.******:000')], {'g_a': Str}, [D('g_a', 13)]))
+CONTRACTS.append(_illegal('interval, hours asterisked but minutes significant',
+                          ['g_a', "'**'", 'g_b', "'.'", 'g_c', "':000'"], {'g_a': Str, 'g_b': Str, 'g_c': Str},
+                          [D('g_a', 8), D('g_b', 4), D('g_c', 6)]))
+CONTRACTS.append(_illegal('timestamp, asterisks start inside the month field (index 5)',
+                          ['g_a', repr('*********.******+'), 'g_u'], {'g_a': Str, 'g_u': Str}, [D('g_a', 5), D('g_u', 3)]))
+CONTRACTS.append(_illegal('timestamp, one asterisk in the year, everything else significant',
+                          ['g_a', "'*'", 'g_b', "'.'", 'g_c', "'-'", 'g_u'], {'g_a': Str, 'g_b': Str, 'g_c': Str, 'g_u': Str},
+                          [D('g_a', 3), D('g_b', 10), D('g_c', 6), D('g_u', 3)]))
+CONTRACTS.append(_illegal('interval, asterisk in the UTC part', ['g_a', "'.'", 'g_c', "':0*0'"], {'g_a': Str, 'g_c': Str},
+                          [D('g_a', 14), D('g_c', 6)]))
+
+
+# accepted although not DSP0004 (function-level reproducers of the two refuted language lemmas): CIMDateTime('20180911124613.128000|000')
+# and CIMDateTime('00000001123456.000000:000junk') construct objects
+for _lit in ('20180911124613.128000|000', '00000001123456.000000:000junk', '20180911124613.128000+000XYZ'):
+    REFUTED_ON_THE_UNCHANGED_TREE.append(_init(f'illegal: {_lit!r}', Lit(_lit), accepts=True, ensures=[('never-accepted', 'False')],
+                                               raises={'ValueError': Raises()}))
+
+
+def lemma_helpers(repo):
+    """The redundant preconditions that were added to help the solver follow from the structural ones (so they narrow nothing):
+    a full-precision string contains no asterisk; digits followed by asterisks consist of digits and asterisks."""
+    import z3
+    from pyvc.core import Obligation
+    from pyvc import regex as rx
+    s, g = z3.String('s'), z3.String('g')
+    star = z3.StringVal('*')
+    out = []
+    for nm, pat in (('interval', r'[0-9]{14}\.[0-9]{6}:000'), ('timestamp', r'[0-9]{14}\.[0-9]{6}[+-][0-9]{3}')):
+        out.append(Obligation(f'C06_dt::helper::full-precision-{nm}-has-no-asterisk', 'lemma',
+                              [z3.InRe(s, rx.compile_re(pat).language('fullmatch'))], z3.Not(z3.Contains(s, star)), 0,
+                              {'expr': f"inre(s, {pat!r}) implies '*' not in s"}))
+    both = rx.compile_re('[0-9*]*').language('fullmatch')
+    for k in range(1, 6):
+        out.append(Obligation(f'C06_dt::helper::{k}-digits-and-asterisks', 'lemma',
+                              [z3.InRe(g, rx.compile_re('[0-9]{%d}' % k).language('fullmatch')), s == z3.Concat(g, z3.StringVal('*' * (6 - k)))],
+                              z3.InRe(s, both), 0, {'expr': f"g in [0-9]{{{k}}} and s == g + {'*' * (6 - k)!r} implies inre(s, '[0-9*]*')"}))
+    return out
+
+
+LEMMAS.append(lemma_helpers)
+
+
+
+def _spread(cs):
+    """Scheduling only: the runner hands the contracts to 16 workers in chunks of consecutive list entries; the expensive
+    ones (CIMDateTime.__init__ shapes, most expensive first) are placed early and at most one per chunk."""
+    heavy = [c for c in cs if c.key.endswith('CIMDateTime.__init__')]
+    light = [c for c in cs if not c.key.endswith('CIMDateTime.__init__')]
+    heavy.sort(key=lambda c: (0 if 'timestamp' in c.label else 1, 0 if 'illegal' in c.label else 1))
+    out = []
+    while heavy:
+        out.append(heavy.pop(0))
+        out.extend(light[:3])
+        del light[:3]
+    return out + light
+
+
+CONTRACTS = _spread(CONTRACTS)
+
+if _os.environ.get('C06_DT_WITH_REFUTED'):        # to reproduce the refutations: C06_DT_WITH_REFUTED=1 ./check C06 -v
+    CONTRACTS.extend(REFUTED_ON_THE_UNCHANGED_TREE)
+    LEMMAS.extend(REFUTED_LEMMAS_ON_THE_UNCHANGED_TREE)
